@@ -46,6 +46,9 @@ def programs():
         "template <typename T> requires C<T> && D<T> void r(T) requires E<T>;",
         "long long unsigned int v = 0x1'fULL + 1.5e3f; const volatile int *const *p; int (&ra)[3] = arr; void (*sig(int))(int);",
         "class D : protected virtual ns::Base<int, 3>, public Other... { using Base::Base; virtual ~D() noexcept override = 0; };",
+        "struct Q { Q(const Q &) = delete; void m() = delete; }; void fd() = delete;",
+        "void (__stdcall *fp)(int); int __cdecl g2(); typedef void (__stdcall *cb_t)(void); void take(int (__cdecl *cmp)(int));",
+        "struct AQ { auto m() const -> int; }; auto fq() -> int; auto vq = 1;",
     ]
     return out
 
@@ -270,6 +273,73 @@ def layer_l(ck, tier):
     return model, found, q
 
 
+def comment_extents(ck, tier, model):
+    """E-RX: a block comment token is exactly '/*' .. first '*/' (+ one newline), a line comment exactly '//' .. end of line:
+    decided by z3 for every string of n code points, n = 2 .. N"""
+    N = 8 if tier == "quick" else 10
+    idx_ml = next(model.name_idx[nm] for nm, _, _ in model.rules if model.type_of(nm) == "COMMENT_MULTILINE")
+    idx_sl = next(model.name_idx[nm] for nm, _, _ in model.rules if model.type_of(nm) == "COMMENT_SINGLELINE")
+    q = rx.Q(timeout_ms=120000)
+    found = []
+    NONE = -5
+    for n in range(2, N + 1):
+        zd = rx.ZDom(n, prefix=f"ce{n}_")
+        comp = rx.Comp(zd)
+        c = zd.c
+        k0, e0 = model.tok_at(comp, 0)
+        nl = lambda k: (z3.If(c[k] == 10, 1, 0) if k < n else 0)  # noqa
+        exp_ml = z3.IntVal(NONE)
+        for j in range(n - 2, 1, -1):
+            exp_ml = z3.If(z3.And(c[j] == ord("*"), c[j + 1] == ord("/")), j + 2 + nl(j + 2), exp_ml)
+        starts_ml = z3.And(c[0] == ord("/"), c[1] == ord("*"))
+        exp_sl = z3.IntVal(n)
+        for j in range(n - 1, 1, -1):
+            exp_sl = z3.If(c[j] == 10, j + 1, exp_sl)
+        starts_sl = z3.And(c[0] == ord("/"), c[1] == ord("/"))
+        good = z3.And((k0 == idx_ml) == z3.And(starts_ml, exp_ml != NONE), z3.Implies(k0 == idx_ml, e0 == exp_ml),
+                      (k0 == idx_sl) == starts_sl, z3.Implies(k0 == idx_sl, e0 == exp_sl))
+        q.push()
+        q.add(*zd.domain_constraints())
+        q.add(z3.Not(good))
+        r = q.check()
+        if r == "sat":
+            found.append(rx.model_string(q.model(), c))
+        elif r != "unsat":
+            ck.undecided.append(f"comment extents n={n}: {r}")
+            ck.exhaustive = False
+        q.pop()
+    ck.add_queries("z3", q.n, q.secs)
+    q.report(ck, "comment extents")
+    ck.states += q.n
+    return found, q, N
+
+
+def ref_comment_token(s):
+    """reference: (type, end) of a comment starting at s[0], or None"""
+    if s.startswith("/*"):
+        j = s.find("*/", 2)
+        if j < 0:
+            return None
+        e = j + 2
+        return ("COMMENT_MULTILINE", e + (1 if s[e:e + 1] == "\n" else 0))
+    if s.startswith("//"):
+        j = s.find("\n", 2)
+        return ("COMMENT_SINGLELINE", len(s) if j < 0 else j + 1)
+    return None
+
+
+def real_first_token(s):
+    from cxxheaderparser.lexer import PlyLexer, LexError
+
+    lx = PlyLexer("f")
+    lx.input(s)
+    try:
+        t = lx.token()
+    except LexError:
+        return None
+    return (t.type, t.lexpos + len(t.value)) if t is not None else None
+
+
 def real_stream(src):
     from cxxheaderparser.lexer import LexerTokenStream
 
@@ -324,6 +394,20 @@ def run(tier):
         body = ("from vf.props.c09 import real_stream\n" f"a, lay, b = {a!r}, {lay!r}, {b!r}\ntry:\n    j = real_stream(a + lay + b)\nexcept Exception as e:\n    j = repr(e)\n"
                 "want = real_stream(a) + real_stream(b)\nprint(j, want)\nsys.exit(1 if j != want else 0)\n")
         ck.violation(f"lex({a!r} + {lay!r} + {b!r}) = {joined}, expected {ta + tb}", ck.write_replay(body), key=dict(kind="layer-L", a=ta[0][0], b=tb[0][0], layout=lay))
+
+    t = time.time()
+    cfound, cq, cn = comment_extents(ck, tier, model)
+    ck.sub("comment tokens: a block comment is '/*' up to the first '*/' (+ newline), a line comment '//' up to the end of the line, and nothing else is one",
+           "E-RX", "holds" if not cfound else "flagged", queries=cq.n, solver_s=round(cq.secs, 1), wall_s=round(time.time() - t, 1), bound=f"every string of 2..{cn} code points")
+    for w in cfound[:3]:
+        ck.traces += 1
+        want, got = ref_comment_token(w), real_first_token(w)
+        gotc = got if got and got[0].startswith("COMMENT") else None
+        if want == gotc:
+            raise HarnessError(f"comment-extent model does not reproduce on the real lexer: {w!r} -> {got}")
+        body = ("from vf.props import c09\n" f"w = {w!r}\nwant, got = c09.ref_comment_token(w), c09.real_first_token(w)\nprint(want, got)\n"
+                "gotc = got if got and got[0].startswith('COMMENT') else None\nsys.exit(1 if want != gotc else 0)\n")
+        ck.violation(f"comment token of {w!r}: lexer gives {got}, the comment is {want}", ck.write_replay(body), key=dict(kind="comment-extent"))
 
     pool = chrun.make_pool()
     try:
